@@ -223,6 +223,8 @@ def core_specs():
         add("none", ["..", "sibling", "canary.txt"], sep)
         add("none", ["..", "..", "canary.txt"], sep)
         add("none", ["a", "..", "..", "home", ".config", "@"], sep)
+        add("none", ["a", "..", "..", "sibling"], sep)            # final component is an existing directory outside out/: the open fails (EISDIR)
+        add("none", ["a", "..", "..", LONG, "@"], sep)            # ENAMETOOLONG outside out/
     for p in ("abs-fs", "abs-bs", "abs-mixed", "unc-bs", "unc-fs"):
         sep = "bs" if p.endswith("bs") else "fs" if p.endswith("fs") else "mixed"
         add(p, ["@"], sep)
@@ -740,7 +742,7 @@ def run_case(cli, ai, group, cfg, scratch, seed, keep=False):
     try:
         box = make_box(outer)
         case = build_case(group, cfg, box, seed, ai)
-        r["names"] = [h["name"] for h in case["hostile"]]
+        r["names"] = [sh(h["name"]) for h in case["hostile"]]
         r["hostile"] = case["hostile"]
         cnt["names_dropped_by_safety_or_format_gate"] = len(case["dropped"])
         env = {"PATH": os.environ.get("PATH", "/usr/bin:/bin"), "HOME": box["home"], "XDG_CONFIG_HOME": box["home"] + "/.config", "XDG_CACHE_HOME": box["home"] + "/.cache",
@@ -793,6 +795,7 @@ def run_case(cli, ai, group, cfg, scratch, seed, keep=False):
                 bad.append("%s: %s" % (ev["bad"], ev["raw"][:160]))
                 continue
             for base, path in ev["targets"]:
+                ev = dict(ev, text=path)
                 lex, real = resolve(base, path)
                 if lex in EXEMPT_EXACT or any(lex.startswith(x) for x in EXEMPT_PREFIX):
                     continue
@@ -811,6 +814,7 @@ def run_case(cli, ai, group, cfg, scratch, seed, keep=False):
         created, removed, modified, dirm = snap_diff(before, after, outer, box["out"])
         snap_paths = set(created) | set(removed) | set(modified)
         ok_paths = {real for (ev, lex, real) in outside if ev["ok"]}
+        snap_text = {real: ev["text"] for (ev, lex, real) in outside if ev["ok"]}
         for d in dirm:
             if not any(os.path.dirname(x) == d for x in snap_paths | ok_paths):
                 snap_paths.add(d)
@@ -824,27 +828,45 @@ def run_case(cli, ai, group, cfg, scratch, seed, keep=False):
         completed = set()
         per_name = {}            # name -> {"ok": [...], "fail": [...]}
 
-        def attribute(path, final):
+        def full_text(h, raw):
+            """The path string the tool is expected to hand to the kernel for this name (Path::join semantics), textually."""
+            n = h["name"] if raw else sys_form(h["name"])
+            if not cfg["preserve"]:
+                comps = [c for c in n.split("/") if c not in ("", ".")]
+                n = comps[-1] if comps and comps[-1] != ".." else ""
+            return n if n.startswith("/") else case["out_arg"].rstrip("/") + "/" + n
+
+        texts = {h["name"]: (full_text(h, False), full_text(h, True)) for h in hs}
+
+        def first_live(cands):
+            live = [h for h in cands if h["name"] not in completed]
+            return (live or cands or [None])[0]
+
+        def attribute(path, text):
+            """Which hostile name made the tool touch this path?  1. the call's own path string is the expected string for the name or a
+            component-wise prefix of it (create_dir_all walks the parents); 2. the unique leaf token; 3. the resolved target."""
+            if text is not None:
+                t = text.rstrip("/") or "/"
+                for form in (0, 1):
+                    c = [h for h in hs if texts[h["name"]][form].rstrip("/") == t or texts[h["name"]][form].startswith(t + "/")]
+                    if c:
+                        return first_live(c)
             leaf = os.path.basename(path)
-            m2 = re.match(r"^[hp](\d+)\.txt$", leaf)
-            if m2:
+            if re.match(r"^[hp](\d+)\.txt$", leaf):
                 for h in hs:
                     if os.path.basename(sys_form(h["name"])) == leaf:
                         return h
-            cands = [h for h in hs if targets[h["name"]] == path or targets[h["name"]].startswith(path.rstrip("/") + "/")]
-            live = [h for h in cands if h["name"] not in completed]
-            pick = (live or cands or [None])[0]
-            return pick
+            return first_live([h for h in hs if targets[h["name"]] == path or targets[h["name"]].startswith(path.rstrip("/") + "/")])
 
         for ev, lex, real in outside:
-            h = attribute(lex, ev["name"].startswith("open"))
+            h = attribute(lex, ev["text"])
             key = h["name"] if h else None
             slot = per_name.setdefault(key, {"ok": [], "fail": [], "h": h})
             slot["ok" if ev["ok"] else "fail"].append({"call": ev["name"], "errno": ev["errno"], "resolved": real, "line": ev["raw"][:300]})
             if h and ev["name"].startswith("open") and lex == targets[h["name"]]:
                 completed.add(h["name"])
         for pth in sorted(snap_paths):
-            h = attribute(pth, True)
+            h = attribute(pth, snap_text.get(pth))
             key = h["name"] if h else None
             slot = per_name.setdefault(key, {"ok": [], "fail": [], "h": h})
             slot.setdefault("snap", []).append(("created" if pth in created else "removed" if pth in removed else "modified") + ":" + os.path.relpath(pth, outer))
@@ -909,8 +931,18 @@ def run_case(cli, ai, group, cfg, scratch, seed, keep=False):
                     ok_lead = False
         for h in hostile:
             tgt = expected_target(h["name"], box, cfg["preserve"])
+            inside = False
             if under(tgt, box["out"]) and tgt != box["out"] and os.path.isfile(tgt):
+                try:
+                    with open(tgt, "rb") as f:
+                        inside = f.read() == case["expect"].get(h["name"])     # this name's own bytes (leaves such as canary.txt are shared in flat mode)
+                except OSError:
+                    inside = False
+            if inside:
                 cnt["hostile_names_extracted_inside_out"] = cnt.get("hostile_names_extracted_inside_out", 0) + 1
+            if inside or h["name"] in per_name:
+                # the tool got as far as this name (it stops at the first write error, so later names of the same archive may not be reached)
+                cnt["names_reached|%s" % h["cls"]] = cnt.get("names_reached|%s" % h["cls"], 0) + 1
         if not ok_lead:
             r["inconc"].append("leading-benign-files-not-extracted")
             r["benign_note"] = "exit %s, stderr: %s" % (p.returncode, stderr[-240:])
@@ -1045,7 +1077,7 @@ def replay(rp, scratch):
         print(f"REPLAY archive index {ai} not in the plan")
         return sup.EXIT_BROKEN
     out = run_case(cli, ai, groups[ai], r["config"], scratch, r["seed"])
-    print(f"REPLAY archive={ai} config={json.dumps(r['config'])} exit={out.get('rc')} names={[_short(n) for n in out.get('names', [])]}")
+    print(f"REPLAY archive={ai} config={json.dumps(r['config'])} exit={out.get('rc')} names={out.get('names', [])}")
     print(f"REPLAY sample={json.dumps(out.get('sample'), ensure_ascii=False)[:1500]}")
     found = False
     for v in out["viol"]:
